@@ -44,6 +44,7 @@ CLIENT_FILE = 'vizier/_src/service/vizier_client.py'
 FACADE_FILE = 'vizier/_src/service/clients.py'
 SERVICE_FACTORY = 'create_vizier_servicer_or_stub'
 CLIENT_CLASS = 'VizierClient'
+CLIENT_FACTORY = 'create_or_load_study'           # returns a VizierClient
 # constructors the service / client object may be handed to (they only store it)
 SERVICE_SINKS = {'VizierClient'}
 CLIENT_SINKS = {'Trial', 'Study', 'TrialIterable', 'cls'}
@@ -126,9 +127,8 @@ class Analyzer:
     else:
       if _is_self_attr(node, '_client'):
         return True
-      if isinstance(node, ast.Call) and _call_name(node) in ('vizier_client.' + CLIENT_CLASS, CLIENT_CLASS):
-        return True
-      if isinstance(node, ast.Call) and _call_name(node) in ['vizier_client.' + f for f in self.scope.client_functions if f == 'create_or_load_study']:
+      # constructors of a VizierClient: the class itself, and the factory function (which is also an event)
+      if isinstance(node, ast.Call) and _call_name(node) in ('vizier_client.' + CLIENT_CLASS, CLIENT_CLASS, 'vizier_client.' + CLIENT_FACTORY):
         return True
     if isinstance(node, ast.Name) and node.id in getattr(self, 'aliases', ()):
       return True
@@ -269,7 +269,7 @@ class Analyzer:
         self.stmt(child, ctx)
 
   def _assigned(self, value, targets, ctx, st):
-    if self._is_target_expr(value) and not (isinstance(value, ast.Call) and self.scope.mode == 'facade' and 'create_or_load_study' in (_call_name(value) or '')):
+    if self._is_target_expr(value) and not (isinstance(value, ast.Call) and (_call_name(value) or '').endswith('.' + CLIENT_FACTORY)):
       # `x = self._service` / `x = create_vizier_servicer_or_stub()` / `client = vizier_client.VizierClient(...)`: an alias
       if isinstance(value, ast.Call):
         for a in list(value.args) + [k.value for k in value.keywords]:
@@ -519,7 +519,8 @@ def extract(repo):
   try:
     client, unknown, info = extract_client(repo)
   except (OSError, SyntaxError) as e:
-    return {'client': {}, 'facade': {}, 'unknown': ['%s cannot be read / parsed: %r' % (CLIENT_FILE, e)], 'missing': list(SINGLE_RESOURCE)}
+    return {'client': {}, 'facade': {}, 'unknown': ['%s cannot be read / parsed: %r' % (CLIENT_FILE, e)], 'missing': list(SINGLE_RESOURCE),
+            'functions': []}
   try:
     facade, u2 = extract_facade(repo, info)
   except (OSError, SyntaxError) as e:
@@ -530,7 +531,7 @@ def extract(repo):
     if u not in seen:
       seen.add(u)
       uniq.append(u)
-  return {'client': client, 'facade': facade, 'unknown': uniq, 'missing': missing}
+  return {'client': client, 'facade': facade, 'unknown': uniq, 'missing': missing, 'functions': info['functions']}
 
 
 # ---------------------------------------------------------------------------------------------- the Lean text
